@@ -703,6 +703,146 @@ theorem F18c_greedy_retry_returns_rejected :
     errOf (sampleStepG X.ops (fun _ => .fin 0) true ⟨.fin 0, 40, .fin 1, .fin 0, true⟩ ⟨0, 0⟩
         [.fin 5, .ninf, .fin 1] [1]).1 = some .allNegInf := by
   decide
+/-! ### round 7: temperature 0 is total and never `-Inf`; every call of every history -/
+
+/-- **greedy_admissible.**  Temperature 0, both variants, with or without the F18c repair: as soon
+    as some logit is above `-Inf`, `Sample` RETURNS a token (no error), its logit is not `-Inf`, and
+    no logit exceeds it.  (Closes the "whenever some logit is finite" clause on the greedy branch:
+    `greedy_argmax` alone says nothing when `Sample` reports an error.) -/
+theorem greedy_admissible {o : Ops α} (laws : Laws o) (fix : Bool) (P : Params α) (r : α)
+    (logits : List α) (ht : o.beq P.temp o.zero = true)
+    (hsome : ∃ w ∈ logits, o.lt o.negInf w = true) :
+    ∃ id v, Sample o fix P r logits = .ok id ∧ logits[id]? = some v ∧ o.beq v o.negInf = false ∧
+      ∀ w ∈ logits, o.lt v w = false := by
+  obtain ⟨w, hw, hlt⟩ := hsome
+  cases logits with
+  | nil => cases hw
+  | cons v0 vs =>
+    -- greedy on a non-empty list returns a token
+    obtain ⟨m, hm⟩ : ∃ m, greedy o (mkTokens (v0 :: vs)) = .ok m := by
+      simp only [mkTokens, mkTokensFrom, greedy]; exact ⟨_, rfl⟩
+    obtain ⟨hmem, hmax⟩ := greedy_spec laws.ord _ _ hm
+    have hget := mkTokens_mem _ _ hmem
+    have hmaxw : ∀ w ∈ v0 :: vs, o.lt m.val w = false := by
+      intro w hw
+      obtain ⟨x, hx, hv⟩ := mem_mkTokens_of_mem (v0 :: vs) w hw
+      rw [← hv]; exact hmax x hx
+    have hne : o.beq m.val o.negInf = false := by
+      cases hb : o.beq m.val o.negInf with
+      | false => rfl
+      | true =>
+        have h1 : o.lt o.negInf m.val = false := laws.beq _ _ hb
+        rcases laws.ord.cotrans _ m.val _ hlt with h2 | h2
+        · rw [h1] at h2; cases h2
+        · rw [hmaxw w hw] at h2; cases h2
+    refine ⟨m.id, m.val, ?_, hget, hne, hmaxw⟩
+    simp only [Sample, sampleCore, ht, if_true, hm, hne, Bool.and_false, Bool.false_eq_true, if_false,
+      Except.map]
+
+/-- every result of a history on a SEEDED sampler is the result of the single call `Sample` on
+    that call's logits with some number -/
+theorem hist_each_call (o : Ops α) (toF : Nat → α) (fix : Bool) (P : Params α) (p : Pcg)
+    (ls : List (List α)) (i : Nat) (res : Except Err Nat)
+    (h : (sampleHist o toF fix P p ls)[i]? = some res) :
+    ∃ l r, ls[i]? = some l ∧ res = Sample o fix P r l := by
+  rw [hist_nth] at h
+  cases hl : ls[i]? with
+  | none => rw [hl] at h; cases h
+  | some l =>
+    rw [hl] at h
+    simp only [Option.map_some, Option.some.injEq] at h
+    refine ⟨l, ?_, rfl, ?_⟩
+    · exact if consumes o fix P l then
+        toF (pcgFloat24 (advance pcgFloat24 (draws o fix P (ls.take i)) p)).1 else toF 0
+    · rw [← h]; unfold sampleStep; split <;> simp [*]
+
+/-- the same for an UNSEEDED sampler (`seed = -1`, `rng == nil`), whatever numbers the
+    process-wide source delivers -/
+theorem unseeded_each_call (o : Ops α) (fix : Bool) (P : Params α) (rs : List α)
+    (ls : List (List α)) (i : Nat) (res : Except Err Nat)
+    (h : (sampleHistU o fix P rs ls)[i]? = some res) :
+    ∃ l r, ls[i]? = some l ∧ res = Sample o fix P r l := by
+  induction ls generalizing rs i with
+  | nil => simp [sampleHistU] at h
+  | cons l ls ih =>
+    unfold sampleHistU at h
+    split at h
+    · cases i with
+      | zero => simp only [List.getElem?_cons_zero, Option.some.injEq] at h; exact ⟨l, _, rfl, h.symm⟩
+      | succ i => simp only [List.getElem?_cons_succ] at h ⊢; exact ih _ _ h
+    · cases i with
+      | zero => simp only [List.getElem?_cons_zero, Option.some.injEq] at h; exact ⟨l, _, rfl, h.symm⟩
+      | succ i => simp only [List.getElem?_cons_succ] at h ⊢; exact ih _ _ h
+
+/-- the sentinel: exactly the seed `-1` leaves the sampler without a generator of its own -/
+theorem newRng_none_iff (seed : Int) : newRng seed = none ↔ seed = -1 := by
+  unfold newRng; split <;> simp [*]
+
+/-- **every call of every history is in range and, at temperature 0, an arg-max** — seeded or not,
+    any number of calls, any lengths, both variants: lifts `index_in_range` and `greedy_argmax`
+    from one call to every position of every history (`results` is `sampleHist …` or
+    `sampleHistU …`: see `hist_each_call`, `unseeded_each_call`). -/
+theorem every_call_admissible {o : Ops α} (h : OrdLaws o) (fix : Bool) (P : Params α)
+    (ls : List (List α)) (results : List (Except Err Nat))
+    (hres : ∀ (i : Nat) res, results[i]? = some res → ∃ l r, ls[i]? = some l ∧ res = Sample o fix P r l)
+    (i : Nat) (id : Nat) (hi : results[i]? = some (.ok id)) :
+    ∃ l, ls[i]? = some l ∧ id < l.length ∧
+      (o.beq P.temp o.zero = true → ∃ v, l[id]? = some v ∧ ∀ w ∈ l, o.lt v w = false) := by
+  obtain ⟨l, r, hl, hS⟩ := hres i _ hi
+  exact ⟨l, hl, index_in_range o fix P r l id hS.symm,
+    fun ht => greedy_argmax h fix P r l id ht hS.symm⟩
+
+theorem hist_every_call_admissible {o : Ops α} (h : OrdLaws o) (toF : Nat → α) (fix : Bool)
+    (P : Params α) (seed : Int) (rs : List α) (ls : List (List α)) (i id : Nat) :
+    ((sampleHist o toF fix P (pcgOfSeed seed) ls)[i]? = some (.ok id) ∨
+     (sampleHistU o fix P rs ls)[i]? = some (.ok id)) →
+    ∃ l, ls[i]? = some l ∧ id < l.length ∧
+      (o.beq P.temp o.zero = true → ∃ v, l[id]? = some v ∧ ∀ w ∈ l, o.lt v w = false) := by
+  rintro (hi | hi)
+  · exact every_call_admissible h fix P ls _ (hist_each_call o toF fix P _ ls) i id hi
+  · exact every_call_admissible h fix P ls _ (unseeded_each_call o fix P rs ls) i id hi
+
+theorem maskLogits_length (o : Ops α) (acc : List Nat) (l : List α) :
+    (maskLogits o acc l).length = l.length := by
+  have : ∀ k, (maskFrom o acc k l).length = l.length := by
+    induction l with
+    | nil => intro k; rfl
+    | cons v vs ih => intro k; simp [maskFrom, ih (k + 1)]
+  exact this 0
+
+/-- every call of every GRAMMAR history: the id is in range, and it is either the accepted first
+    pick (= plain `Sample` on the call's logits) or `Sample` on the masked logits -/
+theorem ghist_each_call (o : Ops α) (toF : Nat → α) (fix : Bool) (P : Params α) (p : Pcg)
+    (ls : List (List α × List Nat)) (i id d : Nat)
+    (h : (sampleHistG o toF fix P p ls)[i]? = some (.ok id, d)) :
+    ∃ l acc, ls[i]? = some (l, acc) ∧ id < l.length ∧
+      ((acc.contains id = true ∧ ∃ r, Sample o fix P r l = .ok id) ∨
+       (∃ r, Sample o fix P r (maskLogits o acc l) = .ok id)) := by
+  induction ls generalizing p i with
+  | nil => simp [sampleHistG] at h
+  | cons c ls ih =>
+    obtain ⟨l, acc⟩ := c
+    cases i with
+    | succ i => simp only [sampleHistG, List.getElem?_cons_succ] at h ⊢; exact ih _ _ h
+    | zero =>
+      simp only [sampleHistG, List.getElem?_cons_zero, Option.some.injEq, Prod.mk.injEq] at h
+      have hs := grammar_step_spec o toF fix P p l acc id h.1
+      refine ⟨l, acc, rfl, ?_, hs⟩
+      rcases hs with ⟨_, r, hr⟩ | ⟨r, hr⟩
+      · exact index_in_range o fix P r l id hr
+      · have := index_in_range o fix P r _ id hr
+        rw [maskLogits_length] at this; exact this
+
+/-- non-vacuity: a three-call history on the witness carrier, seeded and unseeded; the first call
+    draws, the empty call does not, and the third call is served by the next number -/
+example :
+    (sampleHistU X.ops false ⟨.fin 1, 1, .fin 1, .fin 0, false⟩ [.fin 0, .fin 1]
+        [[.fin 3, .fin 5], [], [.fin 7, .fin 2]]).map (fun r => r.toOption) = [some 1, none, some 0] ∧
+    (sampleHist X.ops (fun _ => .fin 0) false { xParams with temp := .fin 0 } (pcgOfSeed 7)
+        [[.fin 3, .fin 5], [.ninf, .fin 2, .fin 2]]).map (fun r => r.toOption) = [some 1, some 1] ∧
+    newRng (-1) = none ∧ newRng 0 = some ⟨0, 0x9E3779B9⟩ := by
+  decide
+
 /-! ### the laws are satisfiable -/
 
 /-- the laws are satisfiable: the integers with their usual order and arithmetic -/
